@@ -1261,12 +1261,35 @@ def linkfail_cases(jobs):
                 fname2 = fname + "b"
                 linecache.cache[fname2] = (len(src2), None, src2.splitlines(True), fname2)
                 exec(compile(src2, fname2, "exec"), ns, ns)
+            interrupt = job.get("kind") == "interrupt"
+            if interrupt:
+                # the new method is fine for everybody; the parent's own rebuild is interrupted (an interrupt is a
+                # BaseException) at its first build hook: the linked children must still be told about the change
+                from ovld import _verif
+
+                from .buildrt import InjectedFault
+
+                src3 = "def late(x: K4):\n    LOG.append('late')\n"
+                fname3 = fname + "i"
+                linecache.cache[fname3] = (len(src3), None, src3.splitlines(True), fname3)
+                exec(compile(src3, fname3, "exec"), ns, ns)
+                fired = {"n": 0}
+
+                def point(name, fields):
+                    if name == "compile.newmap" and not fired["n"]:
+                        fired["n"] = 1
+                        raise InjectedFault("interrupt in the parent's rebuild")
+
+                _verif.install(point=point)
             try:
                 P.register(ns["late"])
                 outcome = "ok"
             except BaseException as e:  # noqa
                 outcome = "error:" + describe(e)
                 e.__traceback__ = None
+            finally:
+                if interrupt:
+                    _verif.install()
 
             def probe(f, cls):
                 del log[:]
